@@ -183,7 +183,7 @@ Proof. rewrite check_and_adjust_buckets_t_total. apply of_option_no_panic. Qed.
 (* the guards are real conditions: the loop body run on a list shorter than it believes panics *)
 Lemma check_loop_guards_fire :
   check_loop 0 [] [f_one] O = TPanic S_CAB_SUB /\ check_loop 2 [f_one] [f_one] O = TPanic S_CAB_INDEX.
-Proof. split; vm_compute; reflexivity. Qed.
+Proof. apply conj; vm_compute; reflexivity. Qed.
 
 Theorem hcore_new_t_total o vals : opts_bounded (ho_common o) -> hcore_new_t o vals = of_result (hcore_new o vals).
 Proof.
@@ -247,7 +247,7 @@ Qed.
 (* beyond the bound the allocation of the result panics (capacity overflow): "bounded size" is needed *)
 Lemma buckets_cap_guard_fires :
   linear_buckets_t f_zero f_one (2 ^ 60) = TPanic S_LIN_CAP /\ exponential_buckets_t f_one (f_one + f_one)%float (2 ^ 60) = TPanic S_EXP_CAP.
-Proof. split; vm_compute; reflexivity. Qed.
+Proof. apply conj; vm_compute; reflexivity. Qed.
 
 (* ====================================================================================== *)
 (* 6. MetricVec                                                                             *)
@@ -504,7 +504,7 @@ Theorem escape_string_no_panic s q : str_bounded s -> no_panic (escape_string_t 
 Proof. intros B. rewrite escape_string_t_total by exact B. intros x H. discriminate. Qed.
 (* the guards are real conditions: an index inside a multi-byte character is not a boundary *)
 Lemma char_boundary_guard_fires : is_char_boundary [0xE9] 1 = false /\ is_char_boundary [0xE9] 2 = true.
-Proof. split; vm_compute; reflexivity. Qed.
+Proof. apply conj; vm_compute; reflexivity. Qed.
 
 Section TextFacts.
   Variable show : f64 -> str.
@@ -814,14 +814,14 @@ Example ex_desc_new :
   /\ desc_new_t [97] [104] [[98]; [98]] [] = TErr EMsg                   (* repeated variable label *)
   /\ desc_new_t [97] [104] [[98]] [([98], [])] = TErr EMsg               (* variable label repeats a constant label *)
   /\ outcome_of (desc_new_t [97] [104] [[98]] [([99], [100])]) = OutOk.
-Proof. repeat split; vm_compute; reflexivity. Qed.
+Proof. repeat apply conj; vm_compute; reflexivity. Qed.
 
 Definition ex_desc : Desc := mkDesc [97] [104] [mkLP [99] [100]] [[98]] 0 0.
 Example ex_make_label_pairs :
   make_label_pairs_t ex_desc [] = TErr (ECard 1 0) /\ make_label_pairs_t ex_desc [[120]; [121]] = TErr (ECard 1 2)
   /\ outcome_of (make_label_pairs_t ex_desc [[120]]) = OutOk
   /\ make_label_pairs_unchecked ex_desc [] = TPanic S_MLP_INDEX.
-Proof. repeat split; vm_compute; reflexivity. Qed.
+Proof. repeat apply conj; vm_compute; reflexivity. Qed.
 
 Example ex_buckets :
   check_and_adjust_buckets_t [nan] = TErr EMsg
@@ -830,7 +830,7 @@ Example ex_buckets :
   /\ check_and_adjust_buckets_t [f_one; nan] = TErr EMsg
   /\ check_and_adjust_buckets_t [f_zero; f_one; infinity] = TOk [f_zero; f_one]
   /\ check_and_adjust_buckets_t [] = TOk DEFAULT_BUCKETS.
-Proof. repeat split; vm_compute; reflexivity. Qed.
+Proof. repeat apply conj; vm_compute; reflexivity. Qed.
 
 Definition ex_opts (name : str) (consts : list (str * str)) (vars : list str) : Opts := mkOpts [] [] name [104] consts vars.
 Example ex_constructors :
@@ -844,7 +844,7 @@ Example ex_constructors :
   /\ outcome_of (vec_create_t (ex_opts [97] [] [[108; 101]]) (VKHist [])) = OutErr EMsg            (* variable label le *)
   /\ outcome_of (vec_create_t (ex_opts [97] [] [[57]]) (VKValue VCounter NF)) = OutErr EMsg
   /\ outcome_of (vec_create_t (ex_opts [97] [] [[108; 101]]) (VKValue VCounter NF)) = OutOk.
-Proof. repeat split; vm_compute; reflexivity. Qed.
+Proof. repeat apply conj; vm_compute; reflexivity. Qed.
 
 Definition two : f64 := (f_one + f_one)%float.
 Definition half : f64 := (f_one / two)%float.
@@ -859,7 +859,7 @@ Example ex_bucket_helpers :
   /\ exponential_buckets_t f_one f_one 3 = TErr EMsg
   /\ exponential_buckets_t f_one half 3 = TErr EMsg
   /\ exponential_buckets_t f_one two 3 = TOk [f_one; two; (two * two)%float].
-Proof. repeat split; vm_compute; reflexivity. Qed.
+Proof. repeat apply conj; vm_compute; reflexivity. Qed.
 (* observed, documented behaviour (not a panic and not one of the documented error conditions): a
    NaN width / start / factor is not refused by the helpers, because `NaN <= 0.0` is false; the list
    they return is then refused by the histogram constructor *)
@@ -868,7 +868,7 @@ Example helpers_let_nan_through :
   /\ exponential_buckets_t infinity two 2 = TOk [infinity; infinity]
   /\ check_and_adjust_buckets_t [nan; nan] = TErr EMsg /\ check_and_adjust_buckets_t [f_one; nan] = TErr EMsg
   /\ check_and_adjust_buckets_t [infinity; infinity] = TErr EMsg.
-Proof. repeat split; vm_compute; reflexivity. Qed.
+Proof. repeat apply conj; vm_compute; reflexivity. Qed.
 
 Definition ex_vec_r : result veccore := Eval vm_compute in vec_create (ex_opts [118] [] [[97]; [98]]) (VKValue VCounter NF).
 Definition ex_vec : veccore :=
@@ -887,7 +887,7 @@ Example ex_vec_requests :
   /\ remove_o ex_vec1 [([98], [121]); ([97], [120])] = OutOk
   /\ remove_o ex_vec1 [([98], [121]); ([97], [122])] = OutErr EMsg
   /\ remove_o ex_vec1 [([98], [121])] = OutErr (ECard 2 1).
-Proof. repeat split; vm_compute; reflexivity. Qed.
+Proof. repeat apply conj; vm_compute; reflexivity. Qed.
 
 Definition ex_d (name : str) : list Desc := match desc_new name [104] [] [] with Some d => [d] | None => [] end.
 Definition ex_reg1 : regcore unit := match reg_register reg_empty (ex_d [97]) tt with Ok r => r | Err _ => reg_empty end.
@@ -899,7 +899,7 @@ Example ex_registry :
   /\ register_o ex_reg1 (ex_d [98]) tt = OutOk
   /\ unregister_o ex_reg1 (ex_d [98]) = OutErr EMsg                                  (* not registered *)
   /\ unregister_o ex_reg1 (ex_d [97]) = OutOk.
-Proof. repeat split; vm_compute; reflexivity. Qed.
+Proof. repeat apply conj; vm_compute; reflexivity. Qed.
 
 Definition ex_show : f64 -> str := fun _ => [48].
 Definition ex_showz : Z -> str := fun _ => [48].
@@ -912,28 +912,29 @@ Example ex_text :
   /\ text_encode_pinned_o [mkMF [97] [104] UNTYPED [ex_metric]] = OutPanic S_TEXT_UNTYPED    (* the pinned tree *)
   /\ text_bounded ex_show [mkMF [97] [104] COUNTER [ex_metric]; mkMF [98] [] HISTOGRAM [ex_metric]].
 Proof.
-  repeat split; try (vm_compute; reflexivity).
-  unfold text_bounded. repeat constructor; vm_compute; discriminate.
+  repeat apply conj; try (vm_compute; reflexivity).
+  unfold text_bounded. vm_compute flat_map. repeat apply Forall_cons; try apply Forall_nil; vm_compute; discriminate.
 Qed.
 Example ex_pb :
   pb_encode_o [pb_of_family (mkMF [97] [104] COUNTER [])] = OutErr EMsg
   /\ pb_encode_o [pb_of_family (mkMF [] [104] COUNTER [ex_metric])] = OutErr EMsg
   /\ pb_encode_o [pb_of_family (mkMF [97] [104] UNTYPED [ex_metric])] = OutOk
   /\ pb_encode_o [mkPFamily None None None []] = OutErr EMsg.
-Proof. repeat split; vm_compute; reflexivity. Qed.
+Proof. repeat apply conj; vm_compute; reflexivity. Qed.
 (* the failing writer: 3 bytes accepted, then an io error *)
 Example ex_limited_writer :
   limit_eres 3 [1; 2] (EOk [1; 2; 10; 11; 12; 13]) = EErr EOther [1; 2; 10; 11; 12]
   /\ limit_eres 4 [1; 2] (EOk [1; 2; 10; 11; 12; 13]) = EOk [1; 2; 10; 11; 12; 13]
   /\ limit_eres 0 [] (EErr EMsg []) = EErr EMsg [] /\ limit_eres 0 [] (EErr EMsg [7]) = EErr EOther [].
-Proof. repeat split; vm_compute; reflexivity. Qed.
+Proof. repeat apply conj; vm_compute; reflexivity. Qed.
 
 (* the hypotheses of the general theorems are satisfiable *)
 Example ex_bounds :
   opts_bounded (ex_opts [97] [([98], [])] [[99]]) /\ desc_bounded ex_desc /\ count_bounded 4096 /\ str_bounded [92; 0xE9; 10]
   /\ coherent ex_vec /\ good_buckets ex_vec /\ opts_bounded (v_opts ex_vec).
 Proof.
-  repeat split; try (vm_compute; (reflexivity || discriminate)).
+  repeat apply conj; try (vm_compute; (reflexivity || discriminate)).
+  intros H; vm_compute in H; discriminate.
 Qed.
 
 (* ShardIndex::from (site 19, not on a Result-returning path): `n >> 63` of a u64 is 0 or 1 *)
